@@ -319,6 +319,34 @@ def check_state(state: tuple) -> list[str]:
                 if want not in text:
                     errs.append(f"{pname} does not show the display name {want!r} of object {i}: "
                         f"{short(text, 120)}")
+    # ... also when the object is printed bare (an indexed symbol without subscript, a function
+    # without arguments) or inside a Python list, as interactive use does
+    bare = [(i, r) for i, r in named if r["kind"] not in ("CS", "V") and r["kind"] not in DERIVE_KINDS]
+    for i, r in bare:
+        o = r["obj"]
+        for pname, fn in (("print_expression", print_expression), ("code_str", code_str),
+            ("latex_str", latex_str)):
+            if pname == "print_expression" and r["kind"] in ("F", "cf"):
+                # a function *class* is not an Expr, the declared parameter type of print_expression
+                # (its printer says "works only for applied functions"): outside the property
+                continue
+            try:
+                text = fn(o)
+            except Exception as ex:  # pylint: disable=broad-except
+                errs.append(f"{pname} of bare object {i} ({r['kind']}) raised {type(ex).__name__}: "
+                    f"{short(ex)}")
+                continue
+            want = o.display_latex if pname == "latex_str" and r["kind"] != "Qn" else o.display_name
+            if INTERNAL.search(text) or want not in text:
+                errs.append(f"{pname} of bare object {i} ({r['kind']}) is {short(text, 80)!r}, display "
+                    f"name {want!r}")
+    if bare:
+        try:
+            text = print_expression([r["obj"] for _, r in bare if r["kind"] not in ("F", "cf")])
+            if INTERNAL.search(text):
+                errs.append(f"print_expression of a list shows an internal name: {short(text, 120)}")
+        except Exception as ex:  # pylint: disable=broad-except
+            errs.append(f"print_expression of a list raised {type(ex).__name__}: {short(ex)}")
     for i, r in enumerate(objs):
         if r["kind"] == "V":
             from symplyphysics.docs.printer_code import code_str as cs
